@@ -207,7 +207,7 @@ pub fn run_schedule(w: &mut Worker, h: &History, n: usize, s: &Schedule) -> Resu
     let dir = w.scratch.sub(&format!("snap-{}", w.snapshots.len()));
     let snap_cfg = IndexCfg { commit_interval: Some(1), integration_test: s.integration_test, ..IndexCfg::all() };
     let index = idx::open(&w.world, &dir, &snap_cfg).map_err(|e| format!("open: {e:#}"))?;
-    index.update().map_err(|e| format!("update on prefix: {e:#}"))?;
+    util::watched(|| index.update()).map_err(|e| format!("update on prefix: {e:#}"))?;
     drop(index);
     w.snapshots.insert(snap_key.clone(), dir);
   }
@@ -224,7 +224,7 @@ pub fn run_schedule(w: &mut Worker, h: &History, n: usize, s: &Schedule) -> Resu
       w.world.push_block(b.clone());
     }
     next += size;
-    match util::catch(|| index.as_ref().unwrap().update()) {
+    match util::catch(|| util::watched(|| index.as_ref().unwrap().update())) {
       Ok(Ok(())) => {}
       Ok(Err(e)) => return Err(format!("update returned an error: {e:#}")),
       Err(p) => return Err(format!("update panicked: {p}")),
